@@ -52,7 +52,74 @@ def formulas(env, fam):
     F += [m.BVULE(t, Pl["v"][1]) for t in Pl["v"][-4:]]
     F += [m.Equals(m.Select(t, Pl["i"][0]), Pl["i"][1]) for t in Pl["a"][-3:]]
     F += [m.LT(t, Pl["r"][1]) for t in Pl["r"][-3:]]
-    return F
+    return F + uf_formulas(env, fam)
+
+
+N_UF = 24     # size of the block below; adversarial orders address it from the end: index -N_UF + j
+
+
+def uf_formulas(env, fam):
+    """applications of function symbols with mixed signatures (Bool-sorted later arguments, 1-/2-/3-ary, Bool and
+    non-Bool results) and function-free formulas sharing their arguments (the queries)"""
+    m = env.formula_manager
+    Pl = fam.pool
+    INT, BOOL, REAL = types.INT, types.BOOL, types.REAL
+    BV8 = types.BVType(8)
+    FT = types.FunctionType
+    x, y = Pl["i"][0], Pl["i"][1]
+    p0, p1 = Pl["b"][0], Pl["b"][1]
+    v, w = Pl["v"][0], Pl["v"][1]
+    r, q = Pl["r"][0], Pl["r"][1]
+    a = Pl["a"][0]
+    pIB = m.Symbol("pIB", FT(BOOL, [INT, BOOL]))
+    pBI = m.Symbol("pBI", FT(BOOL, [BOOL, INT]))
+    fIB = m.Symbol("fIB", FT(INT, [INT, BOOL]))
+    f1 = m.Symbol("f1", FT(INT, [INT]))
+    p1b = m.Symbol("p1b", FT(BOOL, [BOOL]))
+    f2 = m.Symbol("f2", FT(INT, [INT, INT]))
+    pBB = m.Symbol("pBB", FT(BOOL, [BOOL, BOOL]))
+    hVB = m.Symbol("hVB", FT(BV8, [BV8, BOOL]))
+    pRBB = m.Symbol("pRBB", FT(BOOL, [REAL, BOOL, BOOL]))
+    pAB = m.Symbol("pAB", FT(BOOL, [types.ArrayType(INT, INT), BOOL]))
+    sxy = m.Plus(x, y)
+    U = [
+        m.Function(pIB, [x, p0]),                                   # 0  histories
+        m.And(m.Function(pIB, [x, p0]), p0),                        # 1
+        m.Function(pBI, [p0, x]),                                   # 2
+        m.Equals(m.Function(fIB, [x, p1]), y),                      # 3
+        m.LE(m.Function(f1, [x]), y),                               # 4
+        m.Function(p1b, [p0]),                                      # 5
+        m.Function(pBB, [p0, p1]),                                  # 6
+        m.BVULE(m.Function(hVB, [v, p0]), w),                       # 7
+        m.Function(pRBB, [r, p0, m.Not(p1)]),                       # 8
+        m.Function(pIB, [sxy, m.Or(p0, p1)]),                       # 9
+        m.Function(pAB, [a, p1]),                                   # 10
+        m.LE(m.Function(f2, [x, y]), m.Function(fIB, [y, m.TRUE()])),   # 11
+        m.Or(m.Function(pIB, [m.Function(f1, [x]), p0]), m.Function(pBB, [m.Function(p1b, [p0]), p1])),  # 12
+        m.Function(pIB, [m.Int(3), p0]),                            # 13
+        # queries: function-free formulas sharing the first arguments
+        m.LT(x, y),                                                 # 14
+        m.LE(m.Plus(x, m.Int(1)), y),                               # 15
+        m.BVULT(v, w),                                              # 16
+        m.LT(r, q),                                                 # 17
+        m.LE(sxy, x),                                               # 18
+        m.Or(p0, p1),                                               # 19
+        m.Equals(m.Select(a, x), y),                                # 20
+        m.Equals(x, m.Int(3)),                                      # 21
+        x if False else m.LE(x, x),                                 # 22
+        m.And(m.LT(x, y), m.BVULT(v, w), m.LT(r, q)),               # 23
+    ]
+    assert len(U) == N_UF
+    return U
+
+
+def theory_memo_stale(env):
+    """independent oracle: every cached answer of env.theoryo equals the answer of a newly made TheoryOracle"""
+    fresh = env.TheoryOracleClass(env)
+    for k, val in list(env.theoryo.memoization.items()):
+        if str(fresh.get_theory(k)) != str(val):
+            return k
+    return None
 
 
 def submaps(env, fam):
@@ -68,7 +135,8 @@ def submaps(env, fam):
 
 
 KINDS = ["simplify", "substitute", "fv", "atoms", "qf", "types", "theory", "logic", "get_type", "size",
-         "smtlib_dag", "smtlib_tree", "serialize", "reparse", "nnf", "aig", "prenex", "build", "const"]
+         "smtlib_dag", "smtlib_tree", "serialize", "reparse", "nnf", "aig", "prenex", "build", "const",
+         "bad_substitute", "bad_build", "bad_simplify"]
 
 CONSTS = [("Int", 1), ("Int", 1.0), ("Int", True), ("Real", 2), ("Real", 2.0), ("Real", True), ("Real", (4, 2)),
           ("Real", 1), ("Int", 0), ("Int", False), ("Real", 0.5), ("Real", (1, 2)), ("Int", 2 ** 70), ("Real", 1.0),
@@ -137,6 +205,18 @@ def do_call(env, fam, F, maps, call):
     if kind == "build":
         g = F[j % len(F)]
         return [m.And(f, g), m.Or(m.Not(f), g), m.Iff(f, g), m.Ite(f, g, m.Not(g)), m.Implies(g, f)][(i + j) % 5]
+    if kind == "bad_substitute":      # ill-typed substitution: raises somewhere inside the walk
+        Pl = fam.pool
+        bad = [{Pl["i"][0]: m.Real(1)}, {Pl["b"][0]: Pl["i"][0]}, {Pl["v"][0]: m.BV(1, 4)}, {Pl["i"][1]: Pl["r"][0]},
+               {Pl["a"][0]: Pl["i"][0]}, {Pl["r"][0]: Pl["i"][0]}]
+        return f.substitute(bad[j % len(bad)])
+    if kind == "bad_build":
+        Pl = fam.pool
+        return [lambda: m.Plus(Pl["i"][-1], Pl["r"][0]), lambda: m.And(f, Pl["i"][0]), lambda: m.BVULT(Pl["i"][0], Pl["v"][0]),
+                lambda: m.BVAdd(Pl["v"][-1], m.BV(1, 4)), lambda: m.Ite(Pl["i"][0], f, f)][j % 5]()
+    if kind == "bad_simplify":
+        Pl = fam.pool
+        return m.And(f, m.LT(m.Pow(m.Ite(Pl["b"][0], m.Real(0), m.Real(0)), m.Real(-1)), Pl["r"][0])).simplify()
     if kind == "const":
         ctor, val = CONSTS[j % len(CONSTS)]
         if ctor == "BV":
@@ -145,7 +225,7 @@ def do_call(env, fam, F, maps, call):
     raise ValueError(kind)
 
 
-def run_history(seed, n, hist, probe, repeat=False):
+def run_history(seed, n, hist, probe, repeat=False, check_memo=True):
     """-> (outcome of the probe, identity of the repetition)"""
     env, fam = P15.make_env(seed, n)
     push_env(env)
@@ -164,6 +244,10 @@ def run_history(seed, n, hist, probe, repeat=False):
                 same = (k2 == "ok" and W.result_key(v2) == W.result_key(v))
         key = (k, W.result_key(v, ac=True) if k == "ok" else v)
         exact = (k, W.result_key(v, ac=False) if k == "ok" else v)
+        if check_memo:
+            st = theory_memo_stale(env)
+            if st is not None:
+                key = (key, "stale-theory-memo")
         return key, exact, same
     finally:
         pop_env()
@@ -190,7 +274,8 @@ def check_case(ctx, seed, n, hist, probe, tag, stats, repeat=True):
         h = list(hist)
         attempts = 0
         changed = True
-        while changed and attempts < 200:
+        stats["shrunk"] = stats.get("shrunk", 0) + 1
+        while changed and attempts < (200 if stats["shrunk"] <= 6 else 0):
             changed = False
             for idx in range(len(h) - 1, -1, -1):
                 attempts += 1
@@ -201,7 +286,8 @@ def check_case(ctx, seed, n, hist, probe, tag, stats, repeat=True):
                 if attempts >= 200:
                     break
         culprit = h[-1][0] if h else "none"
-        ctx.report_s({"oracle": "history", "probe": probe[0], "hist": culprit, "tag": tag},
+        stale = isinstance(key, tuple) and len(key) == 2 and key[1] == "stale-theory-memo"
+        ctx.report_s({"oracle": "stale-theory-memo" if stale else "history", "probe": probe[0], "hist": culprit, "tag": tag},
                      "probe %s after the history %s gives %s; in a fresh environment %s" % (
                          probe, h, str(key)[:100], str(ref)[:100]),
                      {"seed": seed, "n": n, "hist": h, "probe": list(probe), "tag": tag})
@@ -230,6 +316,29 @@ def adversarial(rng):
         out.append(("logic-child-then-parent", [("logic", child, 0), ("theory", child, 0)], ("logic", 0, 0)))
         out.append(("theory-parent-then-child", [("theory", 0, 0)], ("theory", child, 0)))
         out.append(("theory-child-then-parent", [("theory", child, 0), ("logic", child, 0)], ("theory", 0, 0)))
+    # function symbols of mixed signatures: analyse an application, then a formula sharing its arguments
+    H = list(range(0, 14))
+    Q = list(range(14, 24))
+    u = lambda j: -N_UF + j
+    for h in H:
+        for qq in Q:
+            out.append(("uf-app-then-shared", [("logic", u(h), 0)], ("logic", u(qq), 0)))
+            out.append(("uf-app-then-shared", [("theory", u(h), 0)], ("theory", u(qq), 0)))
+    for h in H:
+        for h2 in H:
+            if h != h2 and (h + h2) % 3 == 0:
+                out.append(("uf-app-then-app", [("theory", u(h), 0), ("logic", u(h), 0)], ("theory", u(h2), 0)))
+    for qq in Q:
+        for h in (0, 1, 3, 7, 8, 9, 12):
+            out.append(("uf-shared-then-app", [("logic", u(qq), 0)], ("logic", u(h), 0)))
+            out.append(("uf-parent-child", [("theory", u(h), 0), ("theory", u(qq), 0), ("logic", u(12), 0)],
+                        ("theory", u(23), 0)))
+    # failing calls in the history, then the same kind of call with good arguments
+    for bk, gk in (("bad_substitute", "substitute"), ("bad_simplify", "simplify"), ("bad_build", "build"),
+                   ("bad_substitute", "simplify"), ("bad_simplify", "substitute")):
+        for j in range(6):
+            for i in (0, 1, 2, 3):
+                out.append(("after-failure", [(bk, i, j)], (gk, i, j)))
     # constant caches: every ordered pair of constant requests
     for i in range(len(CONSTS)):
         for j in range(len(CONSTS)):
